@@ -35,7 +35,7 @@ TInit ==
 
 Upd(e) == [k \in Keys |-> e.upd[k]]
 
-TKvBegin  == IsEvent("kv_begin") /\ KvBegin(Upd(Ev))
+TKvBegin  == IsEvent("kv_begin") /\ KvBegin(Upd(Ev), Ev.ord)
 TKvTail   == IsEvent("kv_tail") /\ KvTail /\ pc' = "kv_parse" /\ op'.hsize = Ev.hsize /\ op'.loc = Ev.loc
 TKvParse  == IsEvent("kv_parse") /\ KvParse /\ pc' = "kv_write" /\ Ev.n = FLen(file) - op.loc
 TKvFooter == IsEvent("kv_footer") /\ KvWriteFooter(Ev.n) /\ Ev.at = op.loc
